@@ -575,3 +575,123 @@ func ruleG8(p *Prog, r *Report) {
 	}
 	r.Floor(R, "worker-count parameters of deterministic launchers", 2, n)
 }
+
+// G9 a launcher's sequential shortcut consults the storage layers its parallel path consults.
+//
+// "Same registers, cache and errors as on one goroutine" includes the path a launcher takes when the work is too
+// small to be worth goroutines. If that shortcut looks an id up in the read cache (or the write set) before it
+// works on it and the parallel path does not - or the other way round - the two paths treat an id that is already
+// cached differently: one re-reads the register and replaces the entry, the other keeps the stale one. Obligation
+// per launcher that is not order-relaxed by contract: the set of storage maps that are *looked up* on the blocks
+// that can neither reach nor be reached from a go statement (the shortcut) equals the set looked up on the blocks
+// reachable from a go statement, private storage methods they call included.
+func ruleG9(p *Prog, r *Report) {
+	const R = "G9"
+	n := 0
+	seen := map[*ssa.Function]bool{}
+	for _, g := range goStatements(p) {
+		launcher := g.Parent()
+		if launcher == nil || seen[launcher] || p.IsTestFile(launcher.Pos()) {
+			continue
+		}
+		seen[launcher] = true
+		if containsFold(launcher.Name(), "nondeterministic") {
+			continue
+		}
+		goBlocks := map[*ssa.BasicBlock]bool{}
+		for _, b := range launcher.Blocks {
+			for _, in := range b.Instrs {
+				if _, ok := in.(*ssa.Go); ok {
+					goBlocks[b] = true
+				}
+			}
+		}
+		reachesGo := map[*ssa.BasicBlock]bool{}
+		fromGo := map[*ssa.BasicBlock]bool{}
+		for _, b := range launcher.Blocks {
+			for gb := range goBlocks {
+				if b == gb || blockReaches(b, gb, nil) {
+					reachesGo[b] = true
+				}
+				if b == gb || blockReaches(gb, b, nil) {
+					fromGo[b] = true
+				}
+			}
+		}
+		lookups := func(b *ssa.BasicBlock) map[string]bool {
+			out := map[string]bool{}
+			var scan func(in ssa.Instruction, depth int)
+			scanFn := func(f *ssa.Function, depth int) {
+				eachInstr(f, func(y ssa.Instruction) { scan(y, depth) })
+			}
+			scan = func(in ssa.Instruction, depth int) {
+				if v, ok := in.(ssa.Value); ok {
+					if fr, _, ok := mapLookupOf(v); ok && fr.Owner != nil && fr.Owner.Obj().Name() == storageT {
+						out[fr.Field] = true
+					}
+				}
+				if c, ok := in.(*ssa.Call); ok && depth < 2 {
+					if cal := c.Call.StaticCallee(); cal != nil && cal.Pkg == p.RootSSA && recvName(cal) == storageT && len(cal.Blocks) > 0 {
+						scanFn(cal, depth+1)
+					}
+				}
+			}
+			for _, in := range b.Instrs {
+				scan(in, 0)
+			}
+			return out
+		}
+		seq, par := map[string]bool{}, map[string]bool{}
+		hasShortcut := false
+		for _, b := range launcher.Blocks {
+			switch {
+			case fromGo[b]:
+				for k := range lookups(b) {
+					par[k] = true
+				}
+			case !reachesGo[b]:
+				// a block that only turns the request away (error return) is no shortcut
+				if ret, ok := b.Instrs[len(b.Instrs)-1].(*ssa.Return); ok {
+					if cl, _ := classifyReturn(ret); cl == retError {
+						continue
+					}
+				}
+				// does the shortcut do any work (a call into the storage: its own methods, the ledger, the codecs)?
+				for _, in := range b.Instrs {
+					if c, ok := in.(ssa.CallInstruction); ok {
+						if _, isB := c.Common().Value.(*ssa.Builtin); isB {
+							continue
+						}
+						if cal := c.Common().StaticCallee(); cal != nil && (isErrorCtorFunc(cal) || cal.Pkg != p.RootSSA) {
+							continue
+						}
+						hasShortcut = true
+					}
+				}
+				for k := range lookups(b) {
+					seq[k] = true
+				}
+			}
+		}
+		if !hasShortcut {
+			continue
+		}
+		n++
+		var diff []string
+		for k := range seq {
+			if !par[k] {
+				diff = append(diff, k+" (shortcut only)")
+			}
+		}
+		for k := range par {
+			if !seq[k] {
+				diff = append(diff, k+" (parallel path only)")
+			}
+		}
+		sort.Strings(diff)
+		r.Decide(len(diff) == 0, R, "shortcut-consults-same-layers:"+p.Name(launcher), p.Pos(launcher.Pos()),
+			"the sequential shortcut and the parallel path look up the same storage maps",
+			"the sequential shortcut and the parallel path of this launcher do not look up the same storage maps: "+strings.Join(diff, ", ")+"; an id that is already cached (or pending) is treated differently depending on how many ids were handed in, so cache and results differ from the one-goroutine run")
+	}
+	r.Ok(R, "launchers-with-shortcut", "-", fmt.Sprintf("%d deterministic launcher(s) with a sequential shortcut", n))
+}
